@@ -510,13 +510,17 @@ func runC11(c C11Case, cs *kit.CaseStats) error {
 	}
 
 	// ---- run until quiescent or out of budget
+	var stall stallTracker
+	stalled := ""
+	lastMove := time.Now()
+	moveKey := ""
 	lastChange := time.Now()
 	prev := ""
 	quiescent := false
 	rounds, reconnects := 0, 0
 	why := ""
 	lastIter := time.Now()
-	for time.Since(start) < netBudget() {
+	for time.Since(start) < stallWindowByz()+15*time.Second {
 		time.Sleep(netTick)
 		rounds++
 		iterLag := time.Since(lastIter)
@@ -558,9 +562,55 @@ func runC11(c C11Case, cs *kit.CaseStats) error {
 			lastChange = time.Now()
 			why = fmt.Sprintf("changed=%v live=%v honestSynced=%v", changed, live, honestSynced)
 		}
+		// stall oracle: the honest peers are connected, their chain is an
+		// announceable (v2) tip sufficiently heavier than the victim's, and
+		// nothing has moved for the whole window
+		if H.Block.V2 != nil {
+			tn := tipNode()
+			lighter := tn != nil && tn.Ledger != nil && H.Ledger.State.SufficientlyHeavierThan(tn.Ledger.State)
+			key := fmt.Sprintf("%v/%d", victim.Node.CM.Tip(), victim.CM.SubmittedCount())
+			if stall.observeW(live && lighter, key, stallWindowByz()) && stallOracle() {
+				var ps []string
+				for _, p := range victim.S.Peers() {
+					ps = append(ps, fmt.Sprintf("%s synced=%v err=%v", p, p.Synced(), p.Err()))
+				}
+				stalled = fmt.Sprintf("no progress for %v (the victim's tip %v did not move, no new block reached its manager) although %d honest peer(s) holding the sufficiently heavier chain %v are connected and re-announce it every 200 ms; victim's peers: [%s]\ngoroutines inside the syncer:\n%s",
+					stallWindowByz(), victim.Node.CM.Tip(), len(honest), H.Index(), strings.Join(ps, "; "), p2px.ClipStacks(p2px.StacksWith("coreutils/syncer."), 10))
+				break
+			}
+		}
+		if victim.Node.CM.Tip().String()+fmt.Sprint(victim.CM.SubmittedCount()) != moveKey {
+			moveKey, lastMove = victim.Node.CM.Tip().String()+fmt.Sprint(victim.CM.SubmittedCount()), time.Now()
+		}
 		need := netStable
 		if !allSynced {
 			need = 3 * netStable
+		}
+		// "settled": in a near tie the honest peers' announcements of their
+		// (side-chain) tip keep flipping them to unsynced; when nothing has moved
+		// for a while, the honest chain is not sufficiently heavier than the
+		// victim's tip and every active liar had its shots, there is nothing left
+		// to wait for
+		if !honestSynced && live && time.Since(lastMove) >= 4*time.Second {
+			tn := tipNode()
+			relaysDone := true
+			for i, b := range byz {
+				mu.Lock()
+				conn := bconn[i]
+				mu.Unlock()
+				if strings.HasPrefix(b.Corr.RPC, "relay") && conn != nil && settledShots[i] < 2 {
+					relaysDone = false
+				}
+			}
+			if tn != nil && tn.Ledger != nil && !H.Ledger.State.SufficientlyHeavierThan(tn.Ledger.State) {
+				if relaysDone {
+					quiescent = true
+					cs.Class("settled-without-synced-flags(near-tie-flapping)")
+					break
+				}
+				lastChange = time.Now().Add(-need) // take the shots now
+				honestSynced = true
+			}
 		}
 		if time.Since(lastChange) >= need {
 			// give every active liar at least one shot at the settled victim
@@ -730,6 +780,15 @@ func runC11(c C11Case, cs *kit.CaseStats) error {
 	}
 	cs.Add("elapsed_ms", elapsed.Milliseconds())
 	cs.Add("reconnects", int64(reconnects))
+	if H.Block.V2 != nil {
+		stall.class(cs)
+		if os.Getenv("VERIF_NET_DEBUG") != "" {
+			fmt.Printf("GAP %d\n", stall.maxGap.Milliseconds())
+		}
+	}
+	if stalled != "" {
+		return fmt.Errorf("stalled: %s", stalled)
+	}
 	if !quiescent {
 		cs.Inconclusive("not-quiescent-within-budget")
 		if os.Getenv("VERIF_NET_DEBUG") != "" {
@@ -781,7 +840,7 @@ func runC11(c C11Case, cs *kit.CaseStats) error {
 
 var c11Prop = kit.Prop[C11Case]{
 	ID:   "C11",
-	Rule: "a victim syncer (fresh, part-way on the honest chain, on another valid branch, or bootstrapped with RetrieveCheckpoint) + 1..2 real honest peers holding the heaviest valid chain of a generated fork tree (ending below / across / above the v2 require height) + 1..2 scripted Byzantine gateway peers, each claiming the honest chain or a longer branch containing one block core rejects (body-level or header-level corruption) or a valid lighter branch, and telling one wire lie: SendHeaders (broken link, low work, old timestamp, wrong remaining, duplicate, wrong message type, garbage, close), SendV2Blocks (other branch, swapped/dropped bodies under the same id, too few/many, reordered, foreign first block, wrong type, garbage, close), SendCheckpoint (non-v2, wrong id, altered state fields, inflated work, self-consistent forged state, wrong type, garbage), relayed headers/outlines/transaction sets (low work, unknown parent, invalid child of the tip, wrong/no missing transactions, altered transaction, empty set, unknown basis, invalid set). Every case: victim and honest peers pass the chain audit against the reference ledger (incl. full replay), tip work never decreases, no handler panic escapes, honest peers are never banned, a checkpoint returned by RetrieveCheckpoint is the true one; Ban is asserted for low-work relays, empty sets and (when sent onto the settled tip) invalid/incompletable outlines. Quiescent cases: the honest chain is not sufficiently heavier than the victim's tip, and the tip equals it when it dominates every valid chain on offer. Non-trivial = the victim issued the corrupted RPC and the delivered payload differed from the honest one (or the active lie was delivered).",
+	Rule: "a victim syncer (fresh, part-way on the honest chain, on another valid branch, or bootstrapped with RetrieveCheckpoint) + 1..2 real honest peers holding the heaviest valid chain of a generated fork tree (ending below / across / above the v2 require height) + 1..2 scripted Byzantine gateway peers, each claiming the honest chain or a longer branch containing one block core rejects (body-level or header-level corruption) or a valid lighter branch, and telling one wire lie: SendHeaders (broken link, low work, old timestamp, wrong remaining, duplicate, wrong message type, garbage, close), SendV2Blocks (other branch, swapped/dropped bodies under the same id, too few/many, reordered, foreign first block, wrong type, garbage, close), SendCheckpoint (non-v2, wrong id, altered state fields, inflated work, self-consistent forged state, wrong type, garbage), relayed headers/outlines/transaction sets (low work, unknown parent, invalid child of the tip, wrong/no missing transactions, altered transaction, empty set, unknown basis, invalid set). Every case: victim and honest peers pass the chain audit against the reference ledger (incl. full replay), tip work never decreases, no handler panic escapes, honest peers are never banned, a checkpoint returned by RetrieveCheckpoint is the true one; Ban is asserted for low-work relays, empty sets and (when sent onto the settled tip) invalid/incompletable outlines. Quiescent cases: the honest chain is not sufficiently heavier than the victim's tip, and the tip equals it when it dominates every valid chain on offer. Stall oracle (violation): for 25 s (40 s thorough) the honest peers are connected, their chain is an announceable (v2) tip sufficiently heavier than the victim's, and neither the victim's tip nor its count of distinct blocks handed to the manager changed (longest legitimate gap measured under load: 5.4 s, the victim works through its peers' header chains one after the other). Non-trivial = the victim issued the corrupted RPC and the delivered payload differed from the honest one (or the active lie was delivered).",
 	Assumptions: []string{
 		"honest tips keep being announced every 200 ms; dropped honest connections are re-dialled",
 		"Byzantine peers hold no hash-collision power: a lie keeps at most the block id (v2 bodies under an unchanged header)",
